@@ -7,6 +7,7 @@ import pvtools
 FAMILIES = ['solver']
 BRIDGES = ['br_solve_', 'br_solver_cap']
 PROPS_V = 'Props/C10.v'
+EXTRA_TARGETS = ['Model/NumCheck.vo']
 BUDGET = {'quick': 400, 'thorough': 20000}
 CAP = 10001
 ORACLE_RULE = ('the stored non-convergent witnesses (attracting 2-cycles / 4-cycles) first, then random feed states with 50% of the permeate '
@@ -53,6 +54,14 @@ def oracle(rng, tier):
         n, out, dt = run(s['m'], s['ct'], s['T'], s['Tp'], s['pp'], s['x'], s['basis'], s['P1'], s['P2'], s['prec'])
         yield {'kind': 'near_equilibrium' if s['mode'] == 'temp' else s['mode'], 'case': pvtools.describe_state(s), 'ok': n <= CAP,
                'detail': '%d evaluations, outcome %s' % (n, out), 'nontrivial': n > 3}
+
+
+def correspondence(tier, seed):
+    import corr_numeric
+    budget = {'solver': 40}
+    if tier == 'thorough':
+        budget = {k: v * 12 for k, v in budget.items()}
+    return corr_numeric.run(seed, budget, nmax=30 if tier == 'quick' else 200, tag='C10')
 
 
 def replay(rep):
